@@ -320,6 +320,7 @@ def run(tier, seed, out, drv, facts):
         held = None  # noqa: F841
         evaluate_after(out, f"direct:{name}:{cls}:released", f"fault of class {cls} at {name} (the exception object released)", {"operation": name, "class": cls})
     other_thread_cases(out)
+    same_context_continues(out)
     annotation_reuse_cases(out)
     pickling_cases(out)
     # --- random histories of public-API operations, then probes
@@ -354,6 +355,74 @@ def run(tier, seed, out, drv, facts):
             culprit = "decorate-old-style-generator" if "decorate-old-style-generator" in names else ",".join(sorted(set(names)))
             out.violation(f"history:annotation-changed:{culprit}", f"after the history (API operations {names}) the probe annotation answers {pa}", {"history": hist, "probe": pa})
         evaluate_after(out, "history:state", "random history of public-API operations", {"history": hist})
+
+
+def same_context_continues(out):
+    """a check aborted by an exception that the caller CATCHES inside the same context block / decorated call: the block
+    goes on, and everything it had bound before (axis sizes, variadic axes, structure names, the call's arguments for
+    `{n}` axes) is what later checks in it are compared with"""
+    class RaisingShape:
+        dtype = "float32"
+
+        @property
+        def shape(self):
+            raise UserExc("shape")
+
+    class RaisingShapeBase:
+        dtype = "float32"
+
+        @property
+        def shape(self):
+            raise UserBaseExc("shape")
+
+    raisers = [
+        ("array .shape raises Exception", lambda: isinstance(RaisingShape(), Float[typing.Any, "a b"])),
+        ("array .shape raises BaseException", lambda: isinstance(RaisingShapeBase(), Float[typing.Any, "a b"])),
+        ("unbound symbolic axis", lambda: isinstance(Duck((3, 4), "float32"), Float[Duck, "a unbound+1"])),
+        ("? axis outside a structured PyTree", lambda: isinstance(Duck((3,), "float32"), Float[Duck, "?q"])),
+        ("leaf check raises inside a PyTree", lambda: isinstance((Duck((3,), "float32"), RaisingShape()), PyTree[Float[typing.Any, "a"], "T"])),
+    ]
+
+    def probes():
+        return [impl.check_once([1, 2, 3], PyTree[int, "T"]), impl.check_once((5, 6), PyTree[int, "T"]),
+                impl.check_once(Duck((3,), "float32"), Float[Duck, "a"]), impl.check_once(Duck((4,), "float32"), Float[Duck, "a"]),
+                impl.check_once(Duck((3, 2, 5), "float32"), Float[Duck, "a *v"]), impl.check_once(Duck((3, 2), "float32"), Float[Duck, "a *v"])]
+
+    want = ["F", "T", "T", "F", "T", "F"]
+    for rname, raiser in raisers:
+        for scope in ("block", "call"):
+            res = {}
+
+            def body(n=None, x=None):
+                isinstance((1, 2), PyTree[int, "T"])
+                isinstance(Duck((3, 2, 5), "float32"), Float[Duck, "a *v"])
+                res["before"] = probes()
+                if n is not None:
+                    res["before"] += [impl.check_once(Duck((n,), "float32"), Float[Duck, "{n}"]), impl.check_once(Duck((n + 1,), "float32"), Float[Duck, "{n}"])]
+                try:
+                    raiser()
+                    res["raised"] = "nothing"
+                except BaseException as e:  # noqa: BLE001
+                    res["raised"] = type(e).__name__
+                res["after"] = probes()
+                if n is not None:
+                    res["after"] += [impl.check_once(Duck((n,), "float32"), Float[Duck, "{n}"]), impl.check_once(Duck((n + 1,), "float32"), Float[Duck, "{n}"])]
+
+            try:
+                if scope == "block":
+                    with jaxtyped("context"):
+                        body()
+                    w = want
+                else:
+                    jaxtyped(typechecker=None)(body)(7, None)
+                    w = want + ["T", "F"]
+            finally:
+                impl_prog.residual_state(reset=True)
+            out.case(("same-context", rname, scope), res.get("raised") != "nothing", sample={"aborted_check": rname, "scope": scope, **res})
+            if res.get("before") != w or res.get("after") != w:
+                out.violation(f"same-context:{scope}", f"inside one {scope} (T bound to a pair, a=3, *v=(2, 5){', n=7 an argument' if scope == 'call' else ''}) the probes must give {w}; "
+                              f"before the aborted check ({rname}: {res.get('raised')}, caught) they give {res.get('before')}, after it {res.get('after')}", {"same_context": [rname, scope]})
+                return
 
 
 def annotation_reuse_cases(out):
@@ -483,6 +552,9 @@ def other_thread_cases(out):
 
 
 def replay(rep, out, drv, facts):
+    if "same_context" in rep:
+        same_context_continues(out)
+        return
     if "scenario" in rep:
         other_thread_cases(out)
         annotation_reuse_cases(out)
